@@ -5,6 +5,7 @@ from analysis.facts import strip_generics
 from analysis.guards import dominating_conditions, conditional_defs, has_cond
 from analysis.pathinterp import enumerate_paths, path_calls, path_value
 from . import routing as R
+from . import C05 as _C05
 
 EXPLANATION = (
     "The verdict equality over all lists and URLs is a runtime quantity and is NOT decided. Decided are the "
@@ -38,6 +39,9 @@ def check(run):
         run.guard("C01.3.exhaustive-probing", cfg, lambda: rule_exhaustive(run, F, cfg))
         run.guard("C01.4.token-boundary", cfg, lambda: rule_boundary(run, F, cfg))
         run.guard("C01.5.routing-total", cfg, lambda: rule_routing(run, F, cfg))
+        b = run.borrow("C05", why="a fused rule must still be found for every request one of its members matches")
+        run.guard("C01.via.C05.1.fusion-key", cfg, lambda: _C05.rule_key(b, F, cfg))
+        run.guard("C01.via.C05.2.bucket-preservation", cfg, lambda: _C05.rule_bucket(b, F, cfg))
 
 
 def rule_store(run, F, cfg):
